@@ -175,6 +175,8 @@ def main(argv):
             c["q"] = r.choice(["-Q1", "-Q2", "-Q2", "-Q3"])
             c["o"] = r.choice(["-O1", "-O2"])
 
+        if os.environ.get("VERIF_C09_ONLY"):	# debugging aid: restrict the workload to named programs
+            cands = [c for c in cands if c["name"] in os.environ["VERIF_C09_ONLY"].split(",")]
         # build executables
         built = vsim.pmap(lambda c: build_exe(binfo, scratch, c["name"], c["text"], c["q"], c["o"]), cands)
         progs = []
@@ -242,6 +244,33 @@ def main(argv):
             results += vsim.pmap(lambda cs_: run_prog(binfo, scratch, work[cs_[0]][0], work[cs_[0]][1], cs_[1]), cases[b0:b0 + B])
         done = len(results)
 
+        # A run that exceeds its CPU budget under a forced schedule is either a hang or merely
+        # the price of tens of thousands of collections.  Decide by re-running the same schedule
+        # with the cap on forced collections divided by 10 (twice at most): the schedule is the
+        # same up to the cap.  If that finishes, the original run was inconclusive (slow), the
+        # cheaper run is judged in its place; a run that still does not finish with a cap of a
+        # few hundred collections is a hang.
+        slow_ix = [i for i in range(done) if results[i].timeout]
+        slow_attributed = 0
+        for level in (10, 100):
+            if not slow_ix:
+                break
+            def lower(i, level=level):
+                wi, plan, meta = cases[i]
+                plan2 = [("gc cap %d" % max(50, int(l.split()[2]) // level)) if l.startswith("gc cap ") else l for l in plan]
+                return run_prog(binfo, scratch, work[wi][0], work[wi][1], plan2), plan2
+            redo_slow = vsim.pmap(lower, slow_ix)
+            still = []
+            for i, (r2, plan2) in zip(slow_ix, redo_slow):
+                if r2.timeout:
+                    still.append(i)
+                    cases[i] = (cases[i][0], plan2, dict(cases[i][2], lowered_cap=level))
+                else:
+                    results[i] = r2
+                    cases[i] = (cases[i][0], plan2, dict(cases[i][2], lowered_cap=level))
+                    slow_attributed += 1
+            slow_ix = still
+
         verd = []
         forced = 0
         freed = 0
@@ -269,6 +298,8 @@ def main(argv):
         redo = vsim.pmap(lambda i: run_prog(binfo, scratch, work[cases[i][0]][0], work[cases[i][0]][1], cases[i][1]), redo_ix)
         mism = 0
         for i, r2 in zip(redo_ix, redo):
+            if r2.timeout or results[i].timeout:
+                continue		# where a CPU budget cuts a run is not part of the simulated world
             if r2.log_hash() != results[i].log_hash() or r2.out != results[i].out:
                 mism += 1
                 out.nondet.append("case %d: two executions of the same schedule differ" % i)
@@ -323,6 +354,7 @@ def main(argv):
             "forced_collections_executed": forced, "forced_collections_that_freed_storage": freed,
             "audits_executed": audits, "allocator_audit_failures_observed_not_gated": audit_fail[:5],
             "startup_allocations": start,
+            "worlds_over_cpu_budget_rerun_with_lower_cap": slow_attributed, "worlds_hanging_at_lowest_cap": len(slow_ix),
             "violating_worlds": sum(1 for v in verd if v), "violation_keys": dict((k, len(v)) for k, v in by_key.items()),
             "determinism_reexecuted": len(redo_ix), "determinism_mismatches": mism,
             "runs_per_hour": int(done / max(wall, 1e-3) * 3600),
